@@ -278,12 +278,20 @@ private def bb84Ens : Ensemble 2 :=
 
 example : checkExclPrimal bb84Ens
     [r2 0 0 0 (1/2), r2 (1/2) 0 0 0, r2 (1/4) (-1/4) (-1/4) (1/4), r2 (1/4) (1/4) (1/4) (1/4)]
+    [r2 0 0 0 (1/2), r2 (1/2) 0 0 0, r2 (1/2) 0 (-1/2) 0, r2 (1/2) 0 (1/2) 0] = some 0 := by
+  decide +kernel
+
+/-- the same POVM with a wrong PSD witness for `M_1` (`L L^H = diag(1/4, 1/4)` is not below
+`M_1 = diag(1/2, 0)`) is rejected: the checker never trusts the witness -/
+example : checkExclPrimal bb84Ens
+    [r2 0 0 0 (1/2), r2 (1/2) 0 0 0, r2 (1/4) (-1/4) (-1/4) (1/4), r2 (1/4) (1/4) (1/4) (1/4)]
     [r2 0 0 0 (1/2), r2 (1/2) 0 0 (1/2), r2 (1/2) 0 (-1/2) 0, r2 (1/2) 0 (1/2) 0] = none := by
   decide +kernel
 
+/-- a family that does not sum to the identity (`M_3` replaced by `M_2`) is rejected -/
 example : checkExclPrimal bb84Ens
-    [r2 0 0 0 (1/2), r2 (1/2) 0 0 0, r2 (1/4) (-1/4) (-1/4) (1/4), r2 (1/4) (1/4) (1/4) (1/4)]
-    [r2 0 0 0 (1/2), r2 (1/2) 0 0 0, r2 (1/2) 0 (-1/2) 0, r2 (1/2) 0 (1/2) 0] = some 0 := by
+    [r2 0 0 0 (1/2), r2 (1/2) 0 0 0, r2 (1/4) (-1/4) (-1/4) (1/4), r2 (1/4) (-1/4) (-1/4) (1/4)]
+    [r2 0 0 0 (1/2), r2 (1/2) 0 0 0, r2 (1/2) 0 (-1/2) 0, r2 (1/2) 0 (-1/2) 0] = none := by
   decide +kernel
 
 private def exEns : Ensemble 2 := ⟨[r2 1 0 0 0, r2 (1/2) (1/2) (1/2) (1/2)], [1/2, 1/2]⟩
